@@ -305,7 +305,7 @@ _ADDED = {
     "C04": "Added: R-MODSET also counts a non-const local pointer into a state array that is stored through or handed to a non-const parameter."
            " Also R-STAGE-INPUT: nothing in the closure of the position / velocity stages reads d->ctrl.",
     "C01": "Added: the warm/cold-start routine (found by role) writes qacc and efc_force on every path (R-ITERATE-INIT)."
-           " Also R-CONTACT-INIT: every member of mjContact is written in the translation unit that creates contacts (uninitialised storage).",
+           " Also R-CONTACT-INIT: every member of mjContact is written in the translation unit that creates contacts (uninitialised storage); R-SENSOR-WRITTEN: the sensor stage's compute-or-read routine writes its output on every path.",
     "C09": "Added: R-FRESH on the inverse pipeline (no stage reads a derived field whose producer is more conditional) and "
            "R-ISLAND-COPY (a function that refreshes an island-ordered copy nothing inside it consumes refreshes it on every path "
            "after each write to either side, nisland == 0 excepted).",
